@@ -14,6 +14,7 @@ Replay(docs, st, evs) ==
          THEN [st EXCEPT !.status = "mismatch"]
     ELSE Replay(docs, CStep(docs, st), Tail(evs))
 
+Mixed(docs) == \E d \in 1..Len(docs) : MixedGenerate(docs, d)
 RunClause(docs, r) ==      \* "" or the failing clause of one run
     IF MissingRef(docs) THEN
         (IF r.ok \/ r.stage # "load" THEN "MissingRefAtLoad"
@@ -23,7 +24,8 @@ RunClause(docs, r) ==      \* "" or the failing clause of one run
     ELSE IF ~RefsFirst(docs, r.order) THEN "RefsFirst"
     ELSE LET fin == Replay(docs, CInit(r.order), r.events) IN
          IF fin.status = "mismatch" \/ fin.status = "unavailable" \/ fin.pos # Len(docs) + 1 THEN "ConvertedInOrderAfterRefs"
-         ELSE IF Len(r.out) # Len(fin.emitted) THEN "OutputSuppression"
+         \* (referrers that disagree on generation: the property does not say who wins - only that every order agrees)
+         ELSE IF ~Mixed(docs) /\ Len(r.out) # Len(fin.emitted) THEN "OutputSuppression"
          ELSE ""
 \* (document, query) pairs of a successful run
 Pairs(docs, r) ==
@@ -33,7 +35,10 @@ Pairs(docs, r) ==
 Verdict(o) ==
     LET cl == [k \in 1..Len(o.runs) |-> RunClause(o.docs, o.runs[k])]
         bad == {k \in 1..Len(o.runs) : cl[k] # ""}
-        same == MissingRef(o.docs) \/ \A k \in 1..Len(o.runs) : Pairs(o.docs, o.runs[k]) = Pairs(o.docs, o.runs[1])
+        OutBag(r) == [q \in {r.out[i] : i \in 1..Len(r.out)} |-> Cardinality({i \in 1..Len(r.out) : r.out[i] = q})]
+        same == \/ MissingRef(o.docs)
+                \/ IF Mixed(o.docs) THEN \A k \in 1..Len(o.runs) : OutBag(o.runs[k]) = OutBag(o.runs[1])
+                   ELSE \A k \in 1..Len(o.runs) : Pairs(o.docs, o.runs[k]) = Pairs(o.docs, o.runs[1])
     IN  IF bad # {} THEN
             LET k == CHOOSE j \in bad : \A j2 \in bad : j <= j2
             IN  [id |-> o.id, v |-> "violation:" \o cl[k], run |-> k, nbad |-> Cardinality(bad)]
